@@ -44,6 +44,38 @@ fn codec_one(ctx: &mut Ctx, n: &Num, fast: bool) {
             return;
         }
     }
+    if !fast {
+        // the same number through a writer that takes a few bytes per call (a socket, a
+        // chunked sink): the bytes that arrive and the count reported are the same
+        struct Dribble(Vec<u8>, usize);
+        impl std::io::Write for Dribble {
+            fn write(&mut self, b: &[u8]) -> std::io::Result<usize> {
+                let k = b.len().min(self.1);
+                self.0.extend_from_slice(&b[..k]);
+                Ok(k)
+            }
+            fn flush(&mut self) -> std::io::Result<()> {
+                Ok(())
+            }
+        }
+        for chunk in [1usize, 3, 8] {
+            let mut w = Dribble(Vec::new(), chunk);
+            match guard(|| lib.compact_encode(&mut w).map_err(|e| format!("{:?}", e))) {
+                Err(p) => ctx.panic_violation("Number::compact_encode(short writes)", &p, &info),
+                Ok(r) => {
+                    if r != Ok(buf.len()) || w.0 != buf {
+                        ctx.violation("compact_encode/short-writes", || format!("a writer taking {} byte(s) per call received {} and was told {:?}; a Vec receives {} ; {}", chunk, hex(&w.0), r, hex(&buf), info()));
+                    }
+                }
+            }
+        }
+        // a sink with no room left reports an error instead of a count
+        let mut none = [0u8; 0];
+        let mut cur: &mut [u8] = &mut none;
+        if let Ok(Ok(k)) = guard(|| lib.compact_encode(&mut cur).map_err(|e| format!("{:?}", e))) {
+            ctx.violation("compact_encode/ok-into-full-sink", || format!("reported {} bytes written into a sink without room ; {}", k, info()));
+        }
+    }
     let d = if fast { Ok(Number::decode(&buf)) } else { guard(|| Number::decode(&buf)) };
     match d {
         Err(p) => ctx.panic_violation("Number::decode", &p, &info),
@@ -515,6 +547,10 @@ pub fn run(ctx: &mut Ctx) {
     }
     for f in [f64::NAN, f64::INFINITY, f64::NEG_INFINITY] {
         pool.push(Num::f(f));
+    }
+    // NaNs of other bit patterns (sign set, payload set): all are the one NaN
+    for bits in [0xFFF8_0000_0000_0000u64, 0x7FF8_0000_0000_0001, 0x7FF0_0000_0000_0001, 0xFFFF_FFFF_FFFF_FFFF] {
+        pool.push(Num::F(bits));
     }
     // neighbours of 2^53..2^64 as floats and ints
     for p in 53..=64u32 {
